@@ -180,9 +180,15 @@ Definition fixed_point (a : args) (r1 r2 : orun) : bool :=
                        || match find_file (of_path g) r1 with Some _ => true | None => false end)
              (or_files r2).
 
+(* what one generator sees: packages in ascending order, each once *)
+Definition gen_pkgs_sorted (l : calllog) : bool :=
+  forallb (fun e => strictly_sorted (map (fun x => fst (fst x))
+                                         (filter (fun x => bytes_eqb (snd (fst e)) (snd (fst x))) l))) l.
+
 Definition holds (c : case) : bool :=
   c_same c
   && forallb (fun e => strictly_sorted (map c_name (snd e))) (or_log (c_run1 c))
+  && gen_pkgs_sorted (or_log (c_run1 c))
   && sum_ok (c_args c) (c_world c) (c_run1 c)
   && match c_run2 c with
      | Some r2 => if or_ok (c_run1 c) then fixed_point (c_args c) (c_run1 c) r2 else true
